@@ -320,7 +320,7 @@ impl Action for AbsAction {
     fn execute(&self, arguments: &[Data], _global: &GlobalData) -> Result<Data, String> {
         if arguments.len() == 1 {
             match &arguments[0] {
-                Data::Integer(value) => Ok(Data::Integer(value.abs())),
+                Data::Integer(value) => Ok(Data::Integer(value.saturating_abs())),
                 Data::Double(value) => Ok(Data::Double(value.abs())),
                 _ => Err("Wrong argument type for 'abs'.".to_string()),
             }
@@ -649,10 +649,7 @@ impl Datamodel for RFsmExpressionDatamodel {
         //  4. Return true.
         let r = match self.execute_internal(script, false) {
             Ok(val) => match val.arc.lock().unwrap().deref() {
-                Data::Integer(v) => {
-                    // NaN Test
-                    Ok(!(v != v || v.abs() == 0))
-                }
+                Data::Integer(v) => Ok(*v != 0),
                 Data::Double(v) => Ok(!(v != v || v.abs() == 0f64)),
                 Data::Source(s) => Ok(!s.is_empty()),
                 Data::String(s) => Ok(!s.is_empty()),
